@@ -39,6 +39,7 @@ EXPLANATION = (
     "(exact variants: no trailing bytes); returned query/body are buf[48..48+q] and buf[48+q..48+q+b].  No raw-pointer or "
     "unchecked operation occurs in these functions.  stream-fills-frame: the four stream readers succeed only after the whole frame was read - the Message-returning readers reach Message::new only through a successful read_exact over the whole query/body vector (or its is_empty() edge) and a header buffer a successful read_exact filled; the frame-into-buffer readers reach Ok only when the regions filled by successful read_exact calls chain from 0 to len(buf) and len(buf) == 48+q+b; the local io::read_exact helper returns Ok only on the destination-exhausted edge, advances by exactly the count read and turns a 0-byte read into an error (tokio/std read_exact are trusted by contract).  Not decided: behaviour of the process under real memory pressure; "
     "panics inside std/tokio/serde callees other than the enumerated ones (assumed not to panic on any input)."
+    ' The entry table is a floor: every function that calls Header::decode is analysed as a parser entry point; Vec::split_off is a panic site discharged by index <= length on a dominating edge.'
 )
 ASSUMPTIONS = [
     "64-bit target: usize == u64, so `as usize` on a wire length is lossless",
